@@ -55,6 +55,20 @@ def handleC16 (op : String) (input impl : Json) : Except String Json := do
           (fldD v "conflicts" Json.null).compress != (fldD v "refConflicts" Json.null).compress)
         then ["same-outcome-as-single-threaded-run"] else [])
     return reply mj (outcome != "hang") viol
+  | "ingest-cli" =>
+    -- the commit command's ingest helper on a failing store: terminates; an error exactly when a
+    -- write was refused (nb blocks and nb block indices, then table index, profile, table = 2nb+3 writes)
+    let mj := Json.mkObj [("terminates", Json.bool true)]
+    if resClass impl == "panic" then return reply mj false ["no-panic"]
+    if resClass impl != "ok" then
+      let isHang := (fldD impl "kind" Json.null).getStr?.toOption == some "hang"
+      return reply mj false [if isHang then "error-in-one-worker-is-reported" else "unexpected-error"]
+    let failAt ← intFld input "failAt"
+    let rows ← natFld input "rows"
+    let nb := (rows + Facts.blockSize - 1) / Facts.blockSize
+    let isErr := (fldD (fldD impl "val" Json.null) "error" (Json.bool false)).getBool?.toOption.getD false
+    let expectErr := failAt ≥ 0 && failAt.toNat < 2 * nb + 3
+    return reply mj true (if isErr == expectErr then [] else ["error-in-one-worker-is-reported"])
   | _ => throw s!"unknown op {op}"
 
 end Wrgl.Drv
